@@ -1264,6 +1264,7 @@ func checkStandaloneParsesFlagsFirst(c *Ctx, rule string) {
 	}
 	var parses []ssa.Instruction
 	bound := map[ssa.Value]bool{}
+	flagName := map[ssa.Value]string{}
 	eachInstrDeep(mainFn, func(_ *ssa.Function, in ssa.Instruction) {
 		cc := callOf(in)
 		if cc == nil || cc.StaticCallee() == nil || cc.StaticCallee().Pkg == nil || cc.StaticCallee().Pkg.Pkg.Path() != "flag" {
@@ -1273,14 +1274,18 @@ func checkStandaloneParsesFlagsFirst(c *Ctx, rule string) {
 		if name == "Parse" {
 			parses = append(parses, in)
 		}
-		if strings.HasSuffix(name, "Var") && len(cc.Args) > 0 {
+		if strings.HasSuffix(name, "Var") && len(cc.Args) > 1 {
 			bound[cc.Args[0]] = true
+			flagName[cc.Args[0]], _ = constString(cc.Args[1])
 		}
 		// flag.Bool / flag.String / …: the pointer they return is the variable
 		switch name {
 		case "Bool", "String", "Int", "Int64", "Uint", "Uint64", "Float64", "Duration":
 			if v, ok := in.(ssa.Value); ok {
 				bound[v] = true
+				if len(cc.Args) > 0 {
+					flagName[v], _ = constString(cc.Args[0])
+				}
 			}
 		}
 	})
@@ -1310,12 +1315,12 @@ func checkStandaloneParsesFlagsFirst(c *Ctx, rule string) {
 					continue
 				}
 				for _, x := range b.Instrs {
-					if cc := callOf(x); cc != nil && cc.StaticCallee() != nil && fnName(cc.StaticCallee()) == "ReadOnly" {
+					if cc := callOf(x); cc != nil && cc.StaticCallee() != nil && fnName(cc.StaticCallee()) == "ReadOnly" && flagName[u.X] == "R" {
 						gated = true
 					}
 				}
 			}
 		}
 	})
-	c.check(gated, rule, "-R adds the ReadOnly option", p.Pos(mainFn.Pos()), "sftp.ReadOnly() under the test of a flag variable", "no flag of the stand-alone server adds the ReadOnly option")
+	c.check(gated, rule, "-R adds the ReadOnly option", p.Pos(mainFn.Pos()), "sftp.ReadOnly() under the test of the variable bound to -R", "the ReadOnly option does not hang on the variable that -R sets (sftp-server's flag for a read-only server): -R serves read-write, or another flag makes the server read-only")
 }
